@@ -152,6 +152,9 @@ def ops_for(ty):
     # ---- C17 num_traits spellings (model = same inherent op)
     for o in ('abs', 'signum'):
         add('Signed_' + o, 'P', 'P', f'num_traits::Signed::{o}(&x)', f'crate.{m}.{T}.Signed.{o} x', f'some (Spec.{o} {F} a)', 'C17')
+    # num_traits' documented contract of abs_sub: zero if self <= other, else self - other (posit order: NaR is least)
+    add('Signed_abs_sub', 'PP', 'P', 'num_traits::Signed::abs_sub(&x, &y)', f'crate.{m}.{T}.Signed.abs_sub x y',
+        f'some (if Spec.sint {F} a <= Spec.sint {F} b then 0 else Spec.sub {F} a b)', 'C17')
     add('Signed_is_negative', 'P', 'bool', 'num_traits::Signed::is_negative(&x)', f'crate.{m}.{T}.Signed.is_negative x', b(f'Spec.sint {F} a < 0'), 'C17')
     add('Signed_is_positive', 'P', 'bool', 'num_traits::Signed::is_positive(&x)', f'crate.{m}.{T}.Signed.is_positive x', b(f'!(Spec.sint {F} a < 0)'), 'C17')
     add('Zero_is_zero', 'P', 'bool', 'num_traits::Zero::is_zero(&x)', f'crate.{m}.{T}.Zero.is_zero x', b('a == 0'), 'C17')
@@ -176,15 +179,22 @@ def ops_for(ty):
     if ty == 'p16':
         for o in ('exp', 'exp2', 'ln', 'log2', 'sin_pi', 'cos_pi', 'tan_pi', 'asin_pi', 'acos_pi', 'atan_pi'):
             add(o, 'P', 'P', f'x.{o}()', f'crate.p16e1.math.{o}.P16E1.{o} x', f'some (Spec.Tables.p16_{o}[a]!)', 'C11')
+        for o in ('exp', 'exp2', 'ln', 'log2'):
+            add('Float_' + o, 'P', 'P', f'num_traits::Float::{o}(x)', f'crate.p16e1.P16E1.Float.{o} x', f'some (Spec.Tables.p16_{o}[a]!)', 'C17')
     if ty == 'p8':
         for o in ('exp', 'ln'):
             add(o, 'P', 'P', f'x.{o}()', f'crate.p8e0.math.{o}.P8E0.{o} x', f'some (Spec.Tables.p8_{o}[a]!)', 'C11')
+            add('Float_' + o, 'P', 'P', f'num_traits::Float::{o}(x)', f'crate.p8e0.P8E0.Float.{o} x', f'some (Spec.Tables.p8_{o}[a]!)', 'C17')
     if ty == 'p32':
         for o in ('sin', 'cos', 'tan', 'asin', 'acos', 'atan', 'ln', 'log2', 'exp', 'exp2', 'sinh', 'cosh', 'cbrt'):
             add(o, 'P', 'P', f'x.{o}()', f'crate.p32e2.math.sleef.{o} x', None, 'C15')
         for o in ('atan2', 'hypot'):
             add(o, 'PP', 'P', f'x.{o}(y)', f'crate.p32e2.math.sleef.{o} x y', None, 'C15')
         add('powf', 'PP', 'P', 'x.powf(y)', 'crate.p32e2.math.P32E2.powf x y', None, 'C15')
+        for o in ('sin', 'cos', 'tan', 'asin', 'acos', 'atan', 'ln', 'log2', 'exp', 'exp2', 'sinh', 'cosh', 'cbrt'):
+            add('Float_' + o, 'P', 'P', f'num_traits::Float::{o}(x)', f'crate.p32e2.P32E2.Float.{o} x', None, 'C17')
+        for o in ('atan2', 'hypot', 'powf'):
+            add('Float_' + o, 'PP', 'P', f'num_traits::Float::{o}(x, y)', f'crate.p32e2.P32E2.Float.{o} x y', None, 'C17')
     return R
 
 # ------------------------------------------------------------------------------------------------ generic-width posits
@@ -260,7 +270,8 @@ def forwarders(ty):
         if o != ty: P += [('to_' + o, 'to_' + o + '_m')]
     for o in ('abs', 'signum'): P += [('Signed_' + o, o)]
     P += [('Signed_is_negative', 'is_sign_negative'), ('Signed_is_positive', 'is_sign_positive'), ('Zero_is_zero', 'is_zero')]
-    for o in ('sqrt', 'round', 'floor', 'ceil', 'trunc', 'fract', 'abs', 'signum', 'recip', 'mul_add', 'min', 'max'):
+    for o in ('sqrt', 'round', 'floor', 'ceil', 'trunc', 'fract', 'abs', 'signum', 'recip', 'mul_add', 'min', 'max',
+              'sin', 'cos', 'tan', 'asin', 'acos', 'atan', 'ln', 'log2', 'exp', 'exp2', 'sinh', 'cosh', 'cbrt', 'atan2', 'hypot', 'powf'):
         P += [('Float_' + o, o)]
     P += [('lt', 'lt_m'), ('le', 'le_m'), ('gt', 'gt_m'), ('ge', 'ge_m'), ('eq', 'eq_m'), ('cmp', 'cmp_m')]
     ops = {op: (args, lean) for (op, args, ret, rust, lean, spec, prop) in ops_for(ty)}
